@@ -338,4 +338,16 @@ PROPS = {
     ),
 }
 
+# Secondary runs "stale errno": the same enumeration (at quick-tier sizes in both tiers) with errno
+# pre-loaded with a value left over from some earlier, unrelated call (ERANGE = 34, ENOMEM = 12) before
+# every library call under test.  Results must not depend on it (errno is per-thread state that
+# persists across calls; a library function may only act on an errno value it has provoked itself).
+for _pid in ("C01", "C02", "C03", "C10", "C12", "C13", "C14", "C16"):
+    _base = PROPS[_pid]["runs"][0]
+    for _val, _tag in ((34, "stale-erange"), (12, "stale-enomem")):
+        _r = dict(_base)
+        _r["args"] = list(_base.get("args", [])) + ["errno_pre=%d" % _val, "size=quick"]
+        _r["tag"] = _tag
+        PROPS[_pid]["runs"] = PROPS[_pid]["runs"] + [_r]
+
 NOT_APPLICABLE = {}
